@@ -652,12 +652,19 @@ def classify_decomp(l, fn, p, fail):
                    # the side whose old total charge must be gauged away in _qr_theta_Y0
                    y0_gauge_needed=bool(p['qtot_R'] if p['move_right'] else p['qtot_L']))
     sig['cls'], sig['impl'] = 'plain', 'other'
-    if use_eig and res['kabs'] != res['k']:
-        sig['cls'] = 'thresholds-on-unnormalised-spectrum'
-        sig['impl'] = 'as-unnormalised' if got_k == res['kabsdir'] else 'other'
-    elif (res['kabsdir'] if use_eig else res['kdirective']) != res['k']:
+    # attribution is independent of which of the two known defects is already repaired in the tree:
+    # the trunc_cut defect on the normalised spectrum (all routines; the eig-based path once it normalises),
+    # the eig-based path working on the unnormalised spectrum (with or without the trunc_cut defect on top)
+    if res['kdirective'] != res['k'] and got_k == res['kdirective']:
+        sig['cls'], sig['impl'] = 'trunc_cut-budget-ends-inside-degenerate-multiplet', 'discards-whole-multiplet'
+    elif use_eig and res['kabs'] != res['k'] and got_k in (res['kabs'], res['kabsdir']):
+        sig['cls'], sig['impl'] = 'thresholds-on-unnormalised-spectrum', 'as-unnormalised'
+    elif use_eig and res['kabsdir'] != res['k'] and got_k == res['kabsdir']:
+        sig['cls'], sig['impl'] = 'trunc_cut-budget-ends-inside-degenerate-multiplet', 'discards-whole-multiplet'
+    elif res['kdirective'] != res['k'] or (use_eig and res['kabsdir'] != res['k']):
         sig['cls'] = 'trunc_cut-budget-ends-inside-degenerate-multiplet'
-        sig['impl'] = 'discards-whole-multiplet' if got_k == (res['kabsdir'] if use_eig else res['kdirective']) else 'other'
+    elif use_eig and res['kabs'] != res['k']:
+        sig['cls'] = 'thresholds-on-unnormalised-spectrum'
     return sig
 
 
